@@ -133,7 +133,7 @@ def build():
   return T
 
 
-def extra_obligations(repo):
+def _extra_obligations_base(repo):
   """Exact-text contract of the one-line _sorted_errors (its library semantics are assumed)."""
   m = source.load(repo, ERR_PY)
   fn = m.func('ErrorLog._sorted_errors')
@@ -170,3 +170,8 @@ MUTANTS = [
     dict(name='append_previous', file=ERR_PY, old='        if len(errors) < MAX_TRACEBACKS:\n          errors.append(error)\n', new='        if len(errors) < MAX_TRACEBACKS:\n          errors.append(error)\n          errors.append(self._errors[0])\n'),
     dict(name='reversed_output', file=ERR_PY, old='    return sum(unique_errors.values(), [])\n', new='    return sum(reversed(list(unique_errors.values())), [])\n'),
 ]
+
+
+def extra_obligations(repo):
+  from engine import frames
+  return _extra_obligations_base(repo) + frames.equality_frames('C04', repo, [('pytype/errors/errors.py', 'Error', 'identity')])
